@@ -37,7 +37,7 @@ var checks = map[string]checkSpec{
 	"C11": {
 		Scenarios: []scnSpec{{Name: "connerr", Share: 1, CountKey: "connerr"}},
 		Quick:     30 * time.Second, Thorough: 10 * time.Minute, Level: "fault_enumeration",
-		Rule: "Exhaustive enumeration (thorough tier; the quick tier walks a seed-dependent subset of the same bijection) of 11 Conn operations x 3 negotiated-version configurations (produce v2/v3/v7, fetch v2/v5/v10, metadata v1/v6) x 11 faults (8 Kafka error codes placed in the operation's error field, response cut mid-way, garbage size prefix, wrong correlation id) x 11 follow-up operations = 3993 cases; after a broker error code the follow-up must behave as on a fresh connection, after a framing/transport error it must fail, and no operation may return a value other than the model's.",
+		Rule: "Exhaustive enumeration (thorough tier; the quick tier walks a seed-dependent subset of the same bijection) of 12 Conn operations (incl. Batch.Read into a too-short buffer, the documented non-fatal local error) x 3 negotiated-version configurations (produce v2/v3/v7, fetch v2/v5/v10, metadata v1/v6) x 11 faults (8 Kafka error codes placed in the operation's error field, response cut mid-way, garbage size prefix, wrong correlation id) x 2 error-field positions x 12 follow-up operations = 9504 cases (cases whose fault does not apply to the api/version run fault-free and the follow-up must still find the connection aligned); after a broker error code the follow-up must behave as on a fresh connection, after a framing/transport error it must fail, and no operation may return a value other than the model's.",
 	},
 	"C17": {
 		Scenarios: []scnSpec{{Name: "cutresp", Share: 1, CountKey: "cutresp"}},
